@@ -37,7 +37,7 @@ def parse_obs(tok):
 
 # ------------------------------------------------------------------------------------------------ part A
 class Session:
-    """ops: list of tuples ('f'|'b', [bytes..]) | ('r',) | ('y', i) | ('Y', i) | ('A', k) | ('o',)"""
+    """ops: list of tuples ('f'|'b', [bytes..]) | ('r',) | ('y', i) | ('Y', i) | ('z',) | ('c',) | ('A', k) | ('o',)"""
     def __init__(self, klass, ops):
         self.klass, self.ops = klass, ops
 
@@ -47,6 +47,7 @@ class Session:
             if o[0] in 'fb': t.append(o[0] + ':' + ','.join(hx(p) for p in o[1]))
             elif o[0] in 'rR': t.append('r')
             elif o[0] == 'o': t.append('o')
+            elif o[0] in 'zc': t.append(o[0])
             else: t.append('%s:%d' % (o[0], o[1]))
         return ' '.join(t)
 
@@ -88,11 +89,11 @@ def random_session(rng, P, nops, klass, obs_every=3, allow_empty=False, big=4, w
             if pcs: ops.append((d, pcs))
         elif c < 10:
             ops.append(('o',)); ops.append(('r',)); ops.append(('o',))
-            if rng.randrange(2): ops.append(('y', rng.randrange(3)))
+            if rng.randrange(2): ops.append(rng.choice([('y', rng.randrange(3)), ('z',)]))
         elif c == 10:
             ops.append(('y', rng.randrange(4)))
         elif c == 11:
-            ops.append(('Y', 0))
+            ops.append(rng.choice([('Y', 0), ('z',), ('z',), ('c',)]))
         elif c == 17 and with_fail:
             ops.append(('A', rng.randrange(3)))
         else:
@@ -107,6 +108,11 @@ def judge_session(ctx, P, variant, s, ireply, mreply, state):
     line = s.line()
     replay = {'harness': 'emitter_diff', 'page_size': P, 'variant': variant, 'harness_line': line if len(line) < 20000 else line[:20000] + '...',
               'class': s.klass}
+    if ireply == 'SKIP': return      # not run: the budget of hanging / crashing sessions was used up (violations already recorded)
+    if ireply.startswith('CRASH') and 'HANG' in ireply:
+        ctx.violation('hang:emitter', 'a request to the default emitter does not return (page ring no longer closes?): session of class %s, page size %d' % (s.klass, P),
+                      dict(replay, ops=[o[0] if o[0] not in 'fb' else '%s%d' % (o[0], sum(len(x) for x in o[1])) for o in s.ops]))
+        return
     if ireply.startswith('CRASH'):
         ctx.violation('crash:emitter', 'sanitizer report / crash in emitter.c: ' + ireply[:300], dict(replay, stderr=ireply))
         return
@@ -126,6 +132,11 @@ def judge_session(ctx, P, variant, s, ireply, mreply, state):
             if len(data): fresh = False
         elif o[0] == 'r':
             stream = bytearray()
+        elif o[0] == 'c':
+            stream = bytearray(); fresh = True
+            if tok != 'c0':
+                fired = True
+                ctx.violation('clear-leaks-pages', 'pages still allocated after flatcc_emitter_clear: ' + tok, replay)
         elif o[0] == 'o':
             ob = parse_obs(tok)
             want = hx(stream)
@@ -247,6 +258,22 @@ def part_a_sessions(ctx, P, default, traces):
                 if pcs: ops.append((c[0], pcs))
             ops += [('o',), ('r',), ('o',)]
             ss.append(Session('builder_trace', ops))
+    # recycling the spare page directly before the front page, then growing the front over further page boundaries
+    for i in range(40 if T else 12):
+        big = rng.randint(2, 5)
+        ops = [('f', split_pieces(rng, rng.randbytes(big * P + rng.randint(0, P)))), ('b', [rng.randbytes(rng.randint(1, P))]), ('o',), ('r',), ('z',)]
+        if i % 3 == 0: ops += [('z',), ('y', 0), ('z',)]
+        for j in range(rng.randint(2, 5)):
+            ops.append((rng.choice('ffb'), split_pieces(rng, rng.randbytes(rng.randint(P // 2, 2 * P)))))
+            if j % 2: ops.append(('o',))
+        ops += [('o',), ('r',), ('f', [rng.randbytes(3 * P)]), ('o',)]
+        ss.append(Session('recycle_before_front', ops))
+    # flatcc_emitter_clear on an application-owned emitter that is used on without re-initialisation
+    for i in range(40 if T else 12):
+        ops = [('f', split_pieces(rng, rng.randbytes(boundary_size(rng, P, 3) + 1))), ('b', [rng.randbytes(rng.randint(1, P))]), ('o',), ('c',), ('o',)]
+        ops += [(rng.choice('fb'), split_pieces(rng, rng.randbytes(boundary_size(rng, P, 2) + 1))), ('o',)]
+        if i % 2: ops += [('r',), ('c',), ('c',), ('b', [rng.randbytes(7)]), ('f', [rng.randbytes(P)]), ('o',)]
+        ss.append(Session('clear_reuse', ops))
     return ss
 
 
@@ -257,12 +284,12 @@ def run_part_a(ctx, P, default, traces):
         raise lib.CheckError('emitter_diff reports page size %s, expected %d' % (res, P))
     ss = part_a_sessions(ctx, P, default, traces)
     lines = [s.line() for s in ss]
-    ires = lib.run_harness_resilient(H, lines)
+    ires = U.run_resilient(H, lines)
     # the reset pool policy (how many spare pages a reset keeps) is an oracle input of the model: pass what the
     # implementation was observed to do (reply token r<kept>) on to the model (request token r:<kept>)
     mlines = []
     for s, l, a in zip(ss, lines, ires):
-        it = TOK.findall(a) if not a.startswith('CRASH') else []
+        it = TOK.findall(a) if not a.startswith(('CRASH', 'SKIP')) else []
         toks = l.split(' ')
         for j, o in enumerate(s.ops):
             if o[0] == 'r' and j < len(it) and re.fullmatch(r'r\d+', it[j]): toks[j] = 'r:' + it[j][1:]
@@ -476,7 +503,7 @@ def run_part_b(ctx, consts):
         replay = {'harness': 'emit_record', 'build': 'san', 'harness_line': l, 'impl': r[:3000]}
         if r.startswith('CRASH') or r == 'BAD':
             m = re.search(r'SUMMARY: \w+: (\S+) \S+ in (\w+)', r) or re.search(r'ERROR: \w+: (\S+) .*? in (\w+) /', r)
-            key = 'crash:builder-scenario' + (':%s:%s' % (m.group(1), m.group(2)) if m else '')
+            key = ('hang:builder-scenario' if 'HANG' in r else 'crash:builder-scenario') + (':%s:%s' % (m.group(1), m.group(2)) if m else '')
             ctx.violation(key, 'sanitizer report / crash in builder scenario `%s`: %s' % (l, r[:300]), replay); continue
         segs = [x.strip() for x in r.split(' | ')]
         recs = [x for x in segs if x[1:5] == ':rec']; defs = [x for x in segs if x[1:5] == ':def']
